@@ -51,8 +51,9 @@ def unit_worker(job):
             for o in rep.obls:
                 d["obligations"].append({"name": o.name, "clause": o.clause, "props": o.props, "status": o.status,
                                          "backend": o.backend, "time": round(o.time, 4), "kind": o.kind})
-                if o.status == "failed":
+                if o.status in ("failed", "unknown"):
                     d["failures"].append(triage(c, mod, rep, o))
+            d["xcheck"] = xcheck(c, mod, rep, prop)
             out.append(d)
         return out
     except Exception:  # noqa: BLE001
@@ -61,10 +62,40 @@ def unit_worker(job):
                  "file": "?", "qual": "?", "label": "", "src": None, "decorators": [], "outcomes": {}, "notes": []}]
 
 
+def xcheck(c, mod, rep, prop):
+    """CPython cross-check: the contract clauses evaluated natively on a sample of scenarios (DESIGN.md §8.3)."""
+    import os
+    if rep.error is not None:
+        return None
+    from . import native
+    tier = os.environ.get("VERIF_TIER_EFFECTIVE", "quick")
+    dparams = [n for n, k in c.params.items() if k == "D"]
+    if dparams != ["data"] or len(c.params) != 1:
+        return None
+    if c.via is None and c.native is None:
+        return None
+    clauses = dict(c.post)
+    if c.frame:
+        clauses["modifies-nothing"] = "True"
+    try:
+        wit, n, errs = native.falsify(c, mod, rep.label, clauses, limit=(120 if tier == "quick" else None),
+                                      seed=int(os.environ.get("VERIF_SEED", "0") or 0), stop_after=2)
+    except Exception:  # noqa: BLE001
+        return {"error": traceback.format_exc()[-600:]}
+    if wit is None:
+        return None
+    status = {o.clause: o.status for o in rep.obls}
+    failed_clauses = {o.clause for o in rep.obls if o.status != "discharged"}
+    # clauses proved *relative to* a failed invariant / callee precondition are not claimed: no disagreement then
+    bad = [] if failed_clauses else [w for w in wit if w["clause"] not in failed_clauses]
+    return {"scenarios": n, "disagreements": bad[:5], "eval_errors": errs[:5], "n_eval_errors": len(errs)}
+
+
 def triage(c, mod, rep, o):
     """Concretise + replay one failed obligation."""
     from . import replay
     f = {"obligation": o.name, "clause": o.clause, "props": o.props, "kind": o.kind, "backend": o.backend,
+         "solver_status": o.status,
          "havoc": list(o.st.havoc), "model": str(o.model)[:1500] if o.model is not None else None,
          "witnesses": None, "note": o.note}
     try:
@@ -72,6 +103,19 @@ def triage(c, mod, rep, o):
         others = [n for n, k in c.params.items() if k != "D"]
         if getattr(c, "replayer", None) is not None:
             f["witnesses"] = c.replayer(c, mod, rep, o)
+        elif c.via is not None and dparams == ["data"] and not others:
+            from . import native
+            if o.kind in ("post", "frame") and o.clause in c.post:
+                clauses = {o.clause: c.post[o.clause]}
+            elif o.kind == "frame":
+                clauses = {"modifies-nothing": "True"}
+            else:
+                clauses = dict(c.post)      # a broken invariant / callee precondition shows up in some post-condition
+            wit, n, errs = native.falsify(c, mod, rep.label, clauses)
+            f["witnesses"] = wit
+            f["replay_kind"] = f"native scenario catalogue ({n} scenarios: inputs x stub sub-loader behaviours)"
+            f["replay_eval_errors"] = errs[:3]
+            f["unconfirmed_is_undecided"] = True
         elif len(dparams) == 1 and not others and c.native is not None and o.kind in ("post", "frame"):
             v = rep.path_meta[o.path][2].extra[dparams[0]]
             cells = o.st.live.get(v.root, frozenset())
@@ -100,6 +144,7 @@ def run_property(prop, tier="quick", seed=0, extra_checks=None, level_text=None,
     t0 = time.time()
     REGISTRY, BY_PROP = load_contracts()
     timeout_ms = 10000 if tier == "quick" else 60000
+    os.environ["VERIF_TIER_EFFECTIVE"] = tier
     units = [c for c in BY_PROP.get(prop, []) if only is None or only in c.name]
     jobs = [(c.name, timeout_ms, prop) for c in units]
     results = []
@@ -129,6 +174,7 @@ def finish(prop, tier, seed, results, extra, t0, level_text=None):
     functions, bounded, assumptions, samples = [], [], set(), []
     solver_time = 0.0
     covers_ok = covers_total = 0
+    xcheck_scen = xcheck_errs = 0
     for d in results:
         if d["error"] is not None:
             kind, msg = d["error"]
@@ -143,7 +189,7 @@ def finish(prop, tier, seed, results, extra, t0, level_text=None):
                 n_dis += 1
                 by_backend[o["backend"]] = by_backend.get(o["backend"], 0) + 1
             elif o["status"] == "unknown":
-                undecided.append((d["unit"], f"solver unknown on {o['name']} ({o['backend']})"))
+                pass          # triaged below like a failed obligation (native confirmation decides)
         solver_time += d["solver_time"]
         for cv, ok in d["covers"]:
             covers_total += 1
@@ -159,12 +205,27 @@ def finish(prop, tier, seed, results, extra, t0, level_text=None):
         if obls and len(samples) < 6:
             samples.append({"obligation": obls[0]["name"], "status": obls[0]["status"], "backend": obls[0]["backend"],
                             "time_s": obls[0]["time"]})
+        xc = d.get("xcheck")
+        if xc:
+            if xc.get("error"):
+                crashes.append((d["unit"], "native cross-check crashed: " + xc["error"]))
+            else:
+                xcheck_scen += xc["scenarios"]
+                xcheck_errs += xc["n_eval_errors"]
+                for w in xc["disagreements"]:
+                    crashes.append((d["unit"], f"clause {w['clause']} is discharged but FALSE natively on {w['signature']} "
+                                    f"({w['native_outcome']}): engine/theory disagrees with CPython"))
+                for e in xc["eval_errors"][:2]:
+                    undecided.append((d["unit"], f"clause not evaluable natively: {e}"))
         for f in d["failures"]:
             if prop not in (f["props"] or []):
                 continue
             ws = f["witnesses"]
             if ws is None:
                 # not replayable
+                if f.get("solver_status") == "unknown":
+                    undecided.append((d["unit"], f"solver unknown on {f['obligation']} ({f['backend']}) and no replay available"))
+                    continue
                 if f["havoc"]:
                     undecided.append((d["unit"], f"failed obligation {f['obligation']} on a havocked path"))
                     continue
@@ -173,6 +234,9 @@ def finish(prop, tier, seed, results, extra, t0, level_text=None):
                     known_hits.append((d["unit"], f["clause"], sig, f))
                 else:
                     violations.append((d["unit"], f["clause"], sig, f, None))
+            elif not ws and f.get("unconfirmed_is_undecided"):
+                undecided.append((d["unit"], f"obligation {f['obligation']} is not discharged ({f['backend']}) and the "
+                                  f"native scenario catalogue found no failing input"))
             elif not ws:
                 crashes.append((d["unit"], f"obligation {f['obligation']} fails in the solver but every concrete input of "
                                 f"the failing path satisfies the clause natively: engine/theory disagrees with CPython"))
@@ -253,6 +317,7 @@ def finish(prop, tier, seed, results, extra, t0, level_text=None):
             "by_backend": by_backend, "solver_time_s": round(solver_time, 2),
             "functions_under_contract": functions, "bounded": bounded,
             "covers_ok": covers_ok, "covers_total": covers_total,
+            "native_crosscheck_scenarios": xcheck_scen,
             "samples": samples or [{"note": "no obligation"}],
             "known_findings_hit": sorted({f"{u}/{c}/{s}" for u, c, s, _ in known_hits}),
             "undecided": [f"{u}: {m}" for u, m in undecided],
